@@ -2,6 +2,7 @@ package harness
 
 import (
 	"fmt"
+	"math/big"
 	"time"
 
 	sdk "github.com/cosmos/cosmos-sdk/types"
@@ -21,8 +22,24 @@ type priceInput struct {
 	Volume  uint64 `json:"volume"`
 }
 
+// genBigPricing: large base prices with discounts of up to 18 decimals (the full precision of the
+// chain's decimal type), one window containing the start time, one or two thresholds
+func genBigPricing(t *rapid.T) string {
+	price := pick(t, "big_price", []string{"5000000000000000000000", "1000000000000000000", "999999999999999999999", "123456789012345678901234", "7"})
+	d := func(label string) string {
+		return pick(t, label, []string{"0.333333333333333333", "0.777777777777777777", "0.999999999999999999", "0.000000000000000001", "0.5", "0.123456789", "0.9"})
+	}
+	s := fmt.Sprintf(`{"price":"%sstake","promotions_by_time":[{"start_time":"%s","end_time":"%s","discount":"%s"}],"promotions_by_volume":[{"volume":1,"discount":"%s"},{"volume":3,"discount":"%s"}]}`,
+		price, fmtTime(StartTimeNs-5e9), fmtTime(StartTimeNs+5e9), d("bd_t"), d("bd_v1"), d("bd_v2"))
+	return s
+}
+
 func genPriceInput(t *rapid.T) interface{} {
 	in := &priceInput{Pricing: GenPricing(t, StartTimeNs)}
+	if pct(t, "big_pricing", 25) {
+		in.Pricing = genBigPricing(t)
+	}
+	allowBigPrices = true
 	rp, err := ParseRefPricing(in.Pricing)
 	if err != nil {
 		panic("harness: generated pricing does not parse: " + err.Error())
@@ -45,6 +62,7 @@ func checkPrice(x interface{}) (*Violation, []string, bool) {
 	fail := func(sig, f string, a ...interface{}) (*Violation, []string, bool) {
 		return &Violation{Prop: "C07", Msg: fmt.Sprintf(f, a...), Sig: "c07:price:" + sig}, nil, false
 	}
+	allowBigPrices = true
 	rp, err := ParseRefPricing(in.Pricing)
 	if err != nil {
 		return fail("harness", "pricing does not parse: %v", err)
@@ -64,7 +82,7 @@ func checkPrice(x interface{}) (*Violation, []string, bool) {
 		w.k.SetRequestVolume(ctx, cons, "svc", prov, in.Volume)
 	}
 	b := types.ServiceBinding{ServiceName: "svc", Provider: prov, Pricing: in.Pricing}
-	want := rp.Fee(in.TimeNs, in.Volume)
+	want := rp.FeeBig(in.TimeNs, in.Volume)
 	dT := types.GetDiscountByTime(parsed, ctx.BlockTime())
 	dV := types.GetDiscountByVolume(parsed, in.Volume)
 	if ratOfDec(dT).Cmp(rp.DiscountAt(in.TimeNs)) != 0 {
@@ -74,15 +92,15 @@ func checkPrice(x interface{}) (*Violation, []string, bool) {
 		return fail("volume_discount", "volume discount at volume %d for %s: module %s, published %s", in.Volume, in.Pricing, dV, rp.DiscountFor(in.Volume).RatString())
 	}
 	got := w.k.GetPrice(ctx, cons, b)
-	if len(got) != 1 || stakeOf(got) != want {
+	if len(got) != 1 || !rp.FeeAcceptable(in.TimeNs, in.Volume, got[0].Amount.BigInt()) {
 		return fail("stamp", "fee stamped on a request: %s, published price %d (pricing %s, time %d, volume %d)", got, want, in.Pricing, in.TimeNs, in.Volume)
 	}
 	ex, _, err := w.k.GetExchangedPrice(ctx, cons, b)
-	if err != nil || stakeOf(ex) != want {
+	if err != nil || len(ex) != 1 || !rp.FeeAcceptable(in.TimeNs, in.Volume, ex[0].Amount.BigInt()) {
 		return fail("charge", "price used for cap and charge: %s (err %v), published price %d (pricing %s, time %d, volume %d)", ex, err, want, in.Pricing, in.TimeNs, in.Volume)
 	}
-	if want > max64(rp.Base, 1) {
-		return fail("bound", "price %d exceeds max(base %d, 1)", want, rp.Base)
+	if want.Cmp(rp.BaseBig) > 0 && want.Cmp(big.NewInt(1)) > 0 {
+		return fail("bound", "price %s exceeds max(base %s, 1)", want, rp.BaseBig)
 	}
 	var classes []string
 	inWin := rp.DiscountAt(in.TimeNs).Cmp(ratOne) != 0
@@ -93,7 +111,7 @@ func checkPrice(x interface{}) (*Violation, []string, bool) {
 	if inVol {
 		classes = append(classes, "volume_discount")
 	}
-	if want == 1 && (rp.Base != 1 || inWin || inVol) {
+	if want.Cmp(big.NewInt(1)) == 0 && (rp.BaseBig.Cmp(big.NewInt(1)) != 0 || inWin || inVol) {
 		classes = append(classes, "clamped_to_one")
 	}
 	for _, win := range rp.ByTime {
@@ -108,7 +126,10 @@ func checkPrice(x interface{}) (*Violation, []string, bool) {
 			break
 		}
 	}
-	return nil, classes, inWin || inVol || want == 1
+	if !rp.BaseBig.IsInt64() {
+		classes = append(classes, "price_beyond_int64")
+	}
+	return nil, classes, inWin || inVol || want.Cmp(big.NewInt(1)) == 0
 }
 
 func init() {
